@@ -18,9 +18,16 @@ trait methods (`<X as SimdRegister<T>>::m(..)`, `Self::m(..)`, `Avx2::m(..)` = s
 `AutoMath::m(..)` (Fallback), `DenseLane::copy(..)`, `DenseLane { a: .., .. }`, field access `.a`, `apply_dense!(..)`
 (expanded from the macro_rules definition in core_simd_api.rs), integer / `0.0` literals, `e as T` between integer
 types, `<<` `>>` `|` `&` `^` `*` `/` on integers, `mem::size_of::<..>()`, parameters and locals.
-A method whose body leaves this fragment (loops, arrays / mem::transmute, raw pointers, mutable locals, scalar method
-calls such as `a.max(b)`, bit-casts between float vector types) is listed in `gen_reg_untranslated` with the reason
-and stays tied by correspondence (B) only.  Anything INSIDE the fragment that cannot be parsed raises TranslateError.
+Scalar loops: `for (idx, (x, y)) in zip(A, B).enumerate() { .. arr[i] = e; .. }` over two arrays (the transmuted lanes)
+is rendered with the loop combinator `for_zip_enum` of coq/Model/RustLoops.v, the array store `arr[i] = e` as `arr_set`
+(an index out of bounds panics), `[v; N]` as `repeat v N`, `mem::transmute::<_, Self::Register>(array)` as `bytes_of`.
+PANICS: an operation that can panic (`wrapping_div`, `AutoMath::div` / `Math::div` on a zero divisor, an array store) is
+OPTION-valued (None = panic); code that uses it is sequenced with `obind` (a panic anywhere is a panic of the whole
+body; panics are the only effect, so the order of evaluation does not show), and the method is registered with the
+option-valued shape (`O_vvv`, `O_ddd`, ... of Model/RegTable.v): the generated lemma then says WHEN it panics, too.
+A method whose body leaves this fragment (other loops, raw pointers, branching, bit-casts between float vector types) is
+listed in `gen_reg_untranslated` with the reason and stays tied by correspondence (B) only.  Anything INSIDE the fragment
+that cannot be parsed raises TranslateError.
 """
 import os
 import re
@@ -68,9 +75,13 @@ SHAPE = {
 }
 FB_SHAPE = {"D_n": "FB_n", "D_v": "FB_v", "D_sv": "FB_sv", "D_vvv": "FB_vvv", "D_vvvv": "FB_vvvv", "D_vs": "FB_vs",
             "D_d": "FB_d", "D_sd": "FB_sd", "D_ddd": "FB_ddd", "D_dddd": "FB_dddd", "D_dv": "FB_dv"}
+# option-valued (panic-aware) counterparts of the shapes (Model/RegTable.v)
+OPT_SHAPE = {"D_vvv": "O_vvv", "D_vvvv": "O_vvvv", "D_ddd": "O_ddd", "D_dddd": "O_dddd", "D_dv": "O_dv"}
+FB_OPT_SHAPE = {"D_vvv": "FB_vvvo", "D_ddd": "FB_dddo"}
 MATH_METHODS = {"zero": "m_zero", "one": "m_one", "max": "m_max", "min": "m_min", "sqrt": "m_sqrt", "abs": "m_abs",
                 "cmp_eq": "m_cmp_eq", "cmp_min": "m_cmp_min", "cmp_max": "m_cmp_max", "add": "m_add", "sub": "m_sub",
                 "mul": "m_mul"}
+MATH_PARTIAL = {"div": "m_div"}        # Math::div: `a.wrapping_div(b)` on the integer types panics on a zero divisor
 # intrinsics that the byte/lane-list representation of Model/Intrinsics.v deliberately does not model
 UNMODELLED = {"_mm_undefined_ps": "an undefined (poison) register", "_mm_undefined_pd": "an undefined (poison) register",
               "_mm_castpd_ps": "a bit-cast between float vector types", "_mm_castps_pd": "a bit-cast between float vector types",
@@ -230,10 +241,10 @@ def expand_macro(arms, name, args, line):
 
 class Val:
     """A translated expression: Gallina text + the Rust type when known (None = unknown / inferred by Coq)."""
-    __slots__ = ("coq", "ty")
+    __slots__ = ("coq", "ty", "opt")
 
-    def __init__(self, coq, ty=None):
-        self.coq, self.ty = coq, ty
+    def __init__(self, coq, ty=None, opt=False):
+        self.coq, self.ty, self.opt = coq, ty, opt      # opt: the text is OPTION-valued (a block that may panic)
 
 
 class Translator:
@@ -281,6 +292,9 @@ class Translator:
         self.failed = []       # (key, error text): inside the fragment but not parseable
         self.cats = {}         # key -> category of the reason it was not translated
         self.used_intr = []    # Coq names of the intrinsics mentioned by translated code, in order of first use
+        self.partial = set()   # keys of the translated methods whose definition is option-valued (may panic)
+        self.used_math = []    # Gen/GenMath.v records mentioned (`AutoMath::m` at a concrete element type)
+        self.fresh_n = 0
 
     # -- source structure -----------------------------------------------------------------------
     def check_dense_struct(self, toks):
@@ -346,8 +360,16 @@ class Translator:
             if it is None:
                 raise TranslateError("%s: neither implemented nor defaulted" % where)
             env = Env(reg, ty, imp["regty"], imp["generic"])
-            text = self.translate_fn(it, self.coq_name(reg, ty, m), env, imp["family"], where,
-                                     "impl" if own else "trait default (core_simd_api.rs)")
+            text, opt = self.translate_fn(it, self.coq_name(reg, ty, m), env, imp["family"], where,
+                                          "impl" if own else "trait default (core_simd_api.rs)")
+            if opt:
+                shape = SHAPE[m]
+                if (FB_OPT_SHAPE if ty is None else OPT_SHAPE).get(shape) is None:
+                    raise TranslateError("%s: the body may panic, and Model/RegTable.v has no option-valued form of shape %s"
+                                         % (where, shape))
+                if ty in FLOAT_TYS:
+                    raise TranslateError("%s: a float method that may panic (no option-valued float shapes)" % where)
+                self.partial.add(key)
             self.done[key] = ("ok", self.coq_name(reg, ty, m), text)
             self.order.append(key)
         except Skip as s:
@@ -392,7 +414,7 @@ class Translator:
                            "and observed by the guard-page runs" % (n, t), "raw pointers (load / write)")
         s = texts(body)
         reasons = []
-        if any(x in s for x in ("for", "loop")):
+        if "loop" in s:
             reasons.append("a scalar loop" + (" over mem::transmute'd arrays" if "transmute" in s else ""))
         if any(x in s for x in ("if", "match", "return")):
             reasons.append("branching")
@@ -413,11 +435,19 @@ class Translator:
         self.prescan(params, it["body"], where)
         scope = {n: t for n, t in params}
         p = Parser(self, it["body"], env, family, where, scope)
-        val = p.block_to_end()
+        saved_n, self.fresh_n = self.fresh_n, 0
+        try:
+            val = p.block_to_end()
+        finally:
+            self.fresh_n = saved_n
         binders = "".join(" (v_%s : %s)" % (n, coq_type(t, where)) for n, t in params)
         pre = " {T : Type} (Mt : MathOps T)" if env.generic else ""
-        rett = (" : " + coq_type(ret, where)) if ret else ""
-        return "(* %s, line %d, %s *)\nDefinition %s%s%s%s :=\n  %s.\n" % (where, it["line"], origin, name, pre, binders, rett, val.coq)
+        if val.opt and not ret:
+            raise TranslateError("%s: a body that may panic in a method without a return type" % where)
+        rett = (" : option (%s)" % coq_type(ret, where)) if val.opt else (" : " + coq_type(ret, where)) if ret else ""
+        note = ", MAY PANIC (None)" if val.opt else ""
+        return ("(* %s, line %d, %s%s *)\nDefinition %s%s%s%s :=\n  %s.\n"
+                % (where, it["line"], origin, note, name, pre, binders, rett, val.coq)), val.opt
 
     def helper_fn(self, hname, it, where, generic_tvar=None):
         """Translate a free helper (`DenseLane::copy`, a `const fn` of danger/mod.rs) once; returns its Coq name."""
@@ -441,6 +471,8 @@ class Translator:
         scope = {n: t for n, t in params}
         p = Parser(self, it["body"], env, None, where, scope, self_struct="DenseLane" if generic_tvar else None)
         val = p.block_to_end()
+        if val.opt:
+            raise TranslateError("%s: a helper function that may panic" % where)
         if generic_tvar:
             binders = " {A : Type}" + "".join(" (v_%s : A)" % n for n, _ in params)
             rett = " : DenseLane A"
@@ -496,12 +528,38 @@ class Parser:
         self.self_struct = self_struct
         self.mutable = set()
         self.consts = {}        # counted-loop variables whose value is known at translation time
+        self.pending = []       # (name, option-valued Gallina): operations of the current statement that may panic
+        self.loop_state = None  # inside a `for` body: the one array the body stores into (the loop's state)
 
     def sub(self, toks):
         """A parser for a sub-expression: same instance, same locals, same counted-loop constants."""
         p = Parser(self.tr, toks, self.env, self.family, self.where, self.scope, self.self_struct)
-        p.mutable, p.consts = self.mutable, self.consts
+        p.mutable, p.consts, p.pending, p.loop_state = self.mutable, self.consts, self.pending, self.loop_state
         return p
+
+    # -- panics: option-valued operations are bound (obind) in front of the statement that uses their value --
+    def partial(self, coq, ty):
+        self.tr.fresh_n += 1
+        t = "o%d" % self.tr.fresh_n
+        self.pending.append((t, coq))
+        return Val(t, ty)
+
+    def flush(self, lets):
+        for t, coq in self.pending:
+            lets.append("obind %s (fun %s =>" % (coq, t))
+        del self.pending[:]
+
+    def close(self, lets, v):
+        """Value of a block = its statements, then the final expression; option-valued as soon as one statement may panic."""
+        self.flush(lets)
+        n = sum(1 for x in lets if x.startswith("obind "))
+        if n == 0:
+            return v if not lets else Val("\n  ".join(lets + [v.coq]), v.ty)
+        final = "Some %s" % v.coq
+        m = re.match(r"^obind (.*) \(fun (\w+) =>$", lets[-1], re.S)
+        if m and v.coq == m.group(2):          # `obind X (fun t => Some t)` is X
+            lets, final, n = lets[:-1], m.group(1), n - 1
+        return Val("\n  ".join(lets + [final]) + ")" * n, v.ty, True)
 
     # -- token helpers --
     def peek(self, k=0):
@@ -531,11 +589,12 @@ class Parser:
     def block(self):
         lets = []
         saved = dict(self.scope)
-        v = self.statements(lets, final=True)
+        outer = list(self.pending)          # what the enclosing statement has evaluated so far stays with that statement
+        del self.pending[:]
+        v = self.close(lets, self.statements(lets, final=True))
+        self.pending[:] = outer
         self.scope = saved
-        if not lets:
-            return v
-        return Val("\n  ".join(lets + [v.coq]), v.ty)
+        return v
 
     def const_eval(self, toks):
         """Value of an index / bound expression made of literals, counted-loop variables and + - *; None if not constant."""
@@ -589,9 +648,33 @@ class Parser:
                     if n_iter > 1024:
                         self.err("counted loop does not terminate within 1024 iterations")
                     p = Parser(self.tr, body, self.env, self.family, self.where, {}, self.self_struct)
-                    p.scope, p.mutable, p.consts = self.scope, self.mutable, self.consts
+                    p.scope, p.mutable, p.consts, p.pending, p.loop_state = self.scope, self.mutable, self.consts, self.pending, self.loop_state
                     p.statements(lets, final=False)
                 continue
+            if self.peek() == "for":
+                self.for_loop(lets)
+                continue
+            if (self.tok().kind == "ident" and self.peek(1) == "[" and (self.scope.get(self.peek()) or "").startswith("[")
+                    and (self.peek() == self.loop_state or (self.loop_state is None and self.peek() in self.mutable))):
+                ce = match_close(self.toks, self.i + 1)
+                if ce + 1 < len(self.toks) and self.toks[ce + 1].text == "=":
+                    # `arr[i] = e;` on a `let mut` array: a store, out of bounds panics (Model/RustLoops.arr_set)
+                    name = self.peek()
+                    ip = self.sub(self.toks[self.i + 2:ce])
+                    iv = ip.expr()
+                    if ip.i != ce - self.i - 2:
+                        ip.err("array index not understood")
+                    if iv.ty not in ("usize", "{integer}"):
+                        self.err("array index of type %s" % iv.ty)
+                    self.i = ce + 2
+                    v = self.expr()
+                    self.eat(";")
+                    ety, _n = array_type(self.scope[name])
+                    if v.ty != ety and v.ty != "{integer}":
+                        self.err("a value of type %s stored into an array of %s" % (v.ty, ety))
+                    self.flush(lets)
+                    lets.append("obind (arr_set v_%s %s %s) (fun v_%s =>" % (name, iv.coq, v.coq, name))
+                    continue
             if self.tok().kind == "ident" and self.peek(1) in ("+=", "-=") and self.peek() in self.consts:
                 name, op = self.peek(), self.peek(1)
                 self.i += 2
@@ -612,6 +695,7 @@ class Parser:
                 v = self.expr()
                 self.eat(";")
                 self.consts.pop(name, None)
+                self.flush(lets)
                 lets.append("let v_%s := %s in" % (name, v.coq))
                 continue
             if self.peek() == "let":
@@ -641,6 +725,7 @@ class Parser:
                     if n != len(names):
                         self.err("array pattern with %d names for an array of %d" % (len(names), n))
                     tmp = "v_%s_arr" % "_".join(names)
+                    self.flush(lets)
                     lets.append("let %s := %s in" % (tmp, v.coq))
                     for k, nm in enumerate(names):
                         self.scope[nm] = ety
@@ -665,6 +750,7 @@ class Parser:
                     # an un-annotated integer `let mut i = 0;`: a loop counter / index, tracked at translation time
                     self.consts[name] = int(v.coq)
                     self.scope[name] = "usize"
+                self.flush(lets)
                 lets.append("let v_%s := %s in" % (name, v.coq))
                 continue
             if not final:
@@ -673,6 +759,80 @@ class Parser:
             if self.peek() == ";":
                 self.err("expression statement (side effects are outside the supported fragment)")
             return v
+
+    def for_loop(self, lets):
+        """`for (idx, (x, y)) in zip(A, B).enumerate() { body }` over two arrays; the body stores into ONE `let mut` array
+        (the loop's state) -> `for_zip_enum` of Model/RustLoops.v.  Other `for` loops are outside the fragment."""
+        cat = "scalar loop over transmuted arrays"
+        shape = "a `for` loop that is not `for (idx, (x, y)) in zip(A, B).enumerate() { .. }`"
+        self.eat("for")
+        if self.peek() != "(":
+            raise Skip(shape, cat)
+        e = match_close(self.toks, self.i)
+        pt = self.toks[self.i + 1:e]
+        ps = texts(pt)
+        if not (len(ps) == 7 and ps[1] == "," and ps[2] == "(" and ps[4] == "," and ps[6] == ")"
+                and all(pt[k].kind == "ident" for k in (0, 3, 5)) and len({ps[0], ps[3], ps[5]}) == 3):
+            raise Skip(shape, cat)
+        idx, xa, xb = ps[0], ps[3], ps[5]
+        self.i = e + 1
+        if self.peek() != "in":
+            raise Skip(shape, cat)
+        self.i += 1
+        j = self.i
+        while j < len(self.toks) and self.toks[j].text != "{":
+            j = match_close(self.toks, j) + 1 if self.toks[j].text in ("(", "[") else j + 1
+        if j >= len(self.toks):
+            self.err("`for` without a body")
+        it = self.toks[self.i:j]
+        s = texts(it)
+        k = 4 if s[:4] == ["core", "::", "iter", "::"] else 2 if s[:2] == ["iter", "::"] else 0
+        if not (len(s) > k + 1 and s[k] == "zip" and s[k + 1] == "("):
+            raise Skip(shape, cat)
+        ze = match_close(it, k + 1)
+        if texts(it[ze + 1:]) != [".", "enumerate", "(", ")"]:
+            raise Skip(shape, cat)
+        parts = split_top(it[k + 2:ze])
+        if len(parts) != 2:
+            self.err("zip takes two arguments")
+        arrs = []
+        for part in parts:
+            p = self.sub(part)
+            v = p.expr()
+            if p.i != len(part):
+                p.err("zip argument not understood")
+            if not (v.ty and v.ty.startswith("[")):
+                raise Skip("zip over a value that is not an array of known type", cat)
+            arrs.append(v)
+        be = match_close(self.toks, j)
+        body = self.toks[j + 1:be]
+        self.i = be + 1
+        stores = []
+        for q in range(len(body) - 1):
+            if body[q].kind == "ident" and body[q + 1].text == "[" and (q == 0 or body[q - 1].text in (";", "}")):
+                ce = match_close(body, q + 1)
+                if ce + 1 < len(body) and body[ce + 1].text == "=" and body[q].text not in stores:
+                    stores.append(body[q].text)
+        if len(stores) != 1:
+            raise Skip("a loop body that does not store into exactly one array", cat)
+        st = stores[0]
+        if self.loop_state is not None:
+            raise Skip("nested loops", cat)
+        if st not in self.mutable or not (self.scope.get(st) or "").startswith("["):
+            self.err("the loop stores into `%s`, which is not a `let mut` array of known type" % st)
+        self.flush(lets)
+        p = Parser(self.tr, body, self.env, self.family, self.where, self.scope, self.self_struct)
+        p.loop_state = st               # p.mutable is empty: an assignment to an outer local is not understood (an error)
+        p.scope[idx] = "usize"
+        p.scope[xa] = array_type(arrs[0].ty)[0]
+        p.scope[xb] = array_type(arrs[1].ty)[0]
+        blets = []
+        p.statements(blets, final=False)
+        bv = p.close(blets, Val("v_" + st, self.scope[st]))
+        btxt = bv.coq if bv.opt else "\n  ".join(blets + ["Some v_" + st])
+        btxt = btxt.replace("\n", "\n    ")
+        lets.append("obind (for_zip_enum (fun v_%s v_%s v_%s v_%s =>\n      %s)\n    0 %s %s v_%s) (fun v_%s =>"
+                    % (idx, xa, xb, st, btxt, arrs[0].coq, arrs[1].coq, st, st))
 
     def type_text(self, stop):
         depth, out = 0, []
@@ -776,6 +936,13 @@ class Parser:
         else:
             raise Skip("method call `.%s(..)` on a value whose type the translator does not know" % name,
                        "scalar loop over transmuted arrays")
+        if name == "wrapping_div" and ty in INT_TYS:
+            if len(args) != 1:
+                self.err("`.wrapping_div` takes one argument")
+            if args[0].ty not in (ty, "{integer}"):
+                self.err("`.wrapping_div` of a %s by a %s" % (ty, args[0].ty))
+            # panics on a zero divisor; MIN / -1 wraps (Model/Prim.i_div)
+            return self.partial("(i_div %s %d %s %s)" % ("true" if sg else "false", w, recv.coq, args[0].coq), ty)
         if name not in table:
             raise Skip("scalar method `.%s(..)` is outside the supported fragment" % name, "scalar loop over transmuted arrays")
         if len(args) != 1:
@@ -831,6 +998,8 @@ class Parser:
         v = p.expr()
         if p.i != len(part):
             p.err("const generic argument not understood")
+        if p.pending:
+            p.err("const generic argument that may panic")
         return v
 
     def struct_literal(self, tyname):
@@ -875,6 +1044,8 @@ class Parser:
             self.err("%s takes %d arguments, %d given" % (m, len(params), len(args)))
         head = info + (" Mt" if imp["generic"] else "")
         coq = "(%s%s)" % (head, "".join(" " + a.coq for a in args)) if (args or imp["generic"]) else info
+        if (reg, None if imp["generic"] else ty, m) in tr.partial:
+            return self.partial(coq, ret)           # the callee may panic
         return Val(coq, ret)
 
     def atom(self):
@@ -896,7 +1067,27 @@ class Parser:
             p = self.sub(self.toks[self.i + 1:e])
             v = p.block_to_end()
             self.i = e + 1
+            if v.opt:
+                return self.partial("(%s)" % v.coq, v.ty)
             return Val("(%s)" % v.coq, v.ty)
+        if x == "[":
+            # `[v; N]`: an array of N copies of v
+            e = match_close(self.toks, self.i)
+            inner = self.toks[self.i + 1:e]
+            semi = [q for q, t2 in enumerate(inner) if t2.text == ";"]
+            if len(semi) != 1:
+                self.err("array expression is not `[value; N]`")
+            p = self.sub(inner[:semi[0]])
+            v = p.expr()
+            if p.i != semi[0]:
+                p.err("array element not understood")
+            n = self.const_eval(inner[semi[0] + 1:])
+            if n is None or n <= 0 or n > 4096:
+                self.err("array length is not a small positive constant")
+            if v.ty not in SCALAR_SIZE:
+                self.err("array literal whose element type is not evident (write `0i8`)")
+            self.i = e + 1
+            return Val("(repeat %s %d)" % (v.coq, n), "[%s;%d]" % (v.ty, n))
         # literals
         if t.kind == "num":
             self.i += 1
@@ -975,7 +1166,11 @@ class Parser:
             self.i = e + 1
             body = expand_macro(tr.apply_dense, name, args, line)
             p = Parser(tr, body, self.env, self.family, self.where + " [apply_dense! expansion]", self.scope, self.self_struct)
-            return p.block_to_end() if body and body[0].text != "{" else p.atom_to_end()
+            p.pending = self.pending
+            v = p.block_to_end() if body and body[0].text != "{" else p.atom_to_end()
+            if v.opt:
+                return self.partial("(%s)" % v.coq, v.ty)
+            return v
         # struct literal
         if self.peek() == "{" and path in (["DenseLane"], ["Self"]) and (path == ["DenseLane"] or self.self_struct == "DenseLane"):
             return self.struct_literal(path[0])
@@ -989,12 +1184,29 @@ class Parser:
                 # same element type as the enclosing instance (what inference picks; see translate_feat.Scan.body)
                 ty = self.env.ty
             return self.method_call(reg, ty, name)
+        if len(path) == 2 and path[0] in tf.MATH_TYPES and not self.env.generic:
+            # `AutoMath::m(a, b)` at a concrete integer type: the record of Gen/GenMath.v regenerated from math/default.rs
+            if path[0] not in ("AutoMath", "StdMath"):
+                self.err("Math call through `%s` outside the generic Fallback impl" % path[0])
+            if name not in ("add", "sub", "mul", "div", "cmp_min", "cmp_max"):
+                self.err("Math method `%s` at a concrete type is outside the supported fragment" % name)
+            args = self.args()
+            if len(args) != 2:
+                self.err("Math::%s takes two arguments" % name)
+            tys = sorted({a.ty for a in args if a.ty != "{integer}"}, key=str)
+            if len(tys) != 1 or tys[0] not in INT_TYS or tys[0].startswith("__") or tys[0] not in SCALAR_SIZE:
+                self.err("Math::%s on operands of types %s (a known integer element type is required)" % (name, tys))
+            rec = "std_" + tys[0]
+            if (rec, "m_" + name) not in tr.used_math:
+                tr.used_math.append((rec, "m_" + name))
+            coq = "(m_%s %s %s %s)" % (name, rec, args[0].coq, args[1].coq)
+            return self.partial(coq, tys[0]) if name in MATH_PARTIAL else Val(coq, tys[0])
         if len(path) == 2 and path[0] in tf.MATH_TYPES:
-            if not self.env.generic:
-                self.err("Math call outside the generic Fallback impl")
-            if name == "div":
-                raise Skip("Math::div panics on a zero divisor (integer types): option-valued, stays with correspondence (B)",
-                           "Fallback: panicking Math::div / size_of of the generic type")
+            if name in MATH_PARTIAL:
+                args = self.args()
+                if len(args) != 2:
+                    self.err("Math::%s takes two arguments" % name)
+                return self.partial("(%s Mt %s %s)" % (MATH_PARTIAL[name], args[0].coq, args[1].coq), "T")
             if name not in MATH_METHODS:
                 self.err("unknown Math method `%s`" % name)
             args = self.args()
@@ -1013,6 +1225,8 @@ class Parser:
                 cty, ctoks = tr.dense_consts[name]
                 p = Parser(tr, ctoks, self.env, self.family, self.where, {}, None)
                 v = p.expr()
+                if p.pending:
+                    p.err("associated constant whose value may panic")
                 return Val(v.coq, cty)
             self.err("unknown item DenseLane::%s" % name)
         if len(path) == 2 and path[0] in INT_TYS and not path[0].startswith("__") and name in ("MIN", "MAX") and self.peek() != "(":
@@ -1026,8 +1240,24 @@ class Parser:
             if len(args) != 1:
                 self.err("transmute takes one argument")
             src = args[0]
+            if tgt in VEC_TYS and src.ty and src.ty.startswith("["):
+                # array of lanes -> register
+                g0 = self.env.resolve("".join(texts(gens[0])))
+                if g0 != "_" and g0.replace(" ", "") != src.ty:
+                    self.err("transmute::<%s, ..> applied to a value of type %s" % (g0, src.ty))
+                ety, n = array_type(src.ty)
+                cty, size = VEC_TYS[tgt]
+                if ety not in SCALAR_SIZE or SCALAR_SIZE[ety] * n != size:
+                    self.err("transmute::<%s, %s>: sizes differ" % (src.ty, tgt))
+                if cty == "list Z":
+                    if ety in FLOAT_TYS:
+                        self.err("transmute of floats to an integer register")
+                    return Val("(bytes_of %d %s)" % (INT_TYS[ety][1], src.coq), tgt)
+                if cty != "list " + ety:
+                    self.err("transmute of %s to %s changes the lane type" % (src.ty, tgt))
+                return Val(src.coq, tgt)
             if not tgt.startswith("["):
-                raise Skip("mem::transmute to `%s` (only register -> array of lanes is modelled)" % tgt, "scalar loop over transmuted arrays")
+                raise Skip("mem::transmute to `%s` (only register <-> array of lanes is modelled)" % tgt, "scalar loop over transmuted arrays")
             ety, n = array_type(tgt)
             srcty = src.ty
             g0 = self.env.resolve("".join(texts(gens[0])))
@@ -1062,7 +1292,7 @@ class Parser:
             self.eat("(")
             self.eat(")")
             if self.env.generic:
-                raise Skip("mem::size_of of a generic type", "Fallback: panicking Math::div / size_of of the generic type")
+                raise Skip("mem::size_of of a generic type", "Fallback: mem::size_of of the generic type")
             if t in VEC_TYS:
                 return Val(str(VEC_TYS[t][1]), "usize")
             if t in SCALAR_SIZE:
@@ -1153,12 +1383,17 @@ def gen_regs(facts, write_if_changed, GEN, REPO):
     ok = [k for k in tr.order if k in set(triples)]
     untranslated = [(k, tr.done[k][1]) for k in triples if tr.done[k][0] != "ok"]
 
+    def shape_of(k):
+        if k in tr.partial:
+            return (FB_OPT_SHAPE if k[1] is None else OPT_SHAPE)[SHAPE[k[2]]]
+        return FB_SHAPE[SHAPE[k[2]]] if k[1] is None else SHAPE[k[2]]
+
     def entry(k):
         reg, ty, m = k
-        shape = SHAPE[m]
+        shape = shape_of(k)
         name = tr.done[k][1]
         if ty is None:
-            return "(%s, %s (@%s))" % (METH[m], FB_SHAPE[shape], name)
+            return "(%s, %s (@%s))" % (METH[m], shape, name)
         wrap = "GF32" if ty == "f32" else "GF64" if ty == "f64" else "GI"
         return "(%s, %s, %s, %s (%s %s))" % (reg, TYS[ty], METH[m], wrap, shape, name)
 
@@ -1168,8 +1403,17 @@ def gen_regs(facts, write_if_changed, GEN, REPO):
              "   straight-line code, over the intrinsic vocabulary of Model/Intrinsics.v; `v_x` is the Rust local / parameter `x`.\n"
              "   Integer vectors are byte lists, integer scalars bit patterns, float vectors lane lists. *)")
     L.append("From Coq Require Import ZArith List String.")
-    L.append("From CF Require Import Model.Tables Model.Prim Model.SimdApi Model.Intrinsics Model.RegTable.")
+    L.append("From CF Require Import Model.Tables Model.Prim Model.SimdApi Model.Intrinsics Model.RustLoops Model.RegTable.")
+    if tr.used_math:
+        L.append("From CF Require Import Gen.GenMath.")
     L.append("Import ListNotations.\nLocal Open Scope Z_scope.\n")
+    if tr.used_math:
+        L.append("(* `AutoMath::m` at a concrete element type is read as StdMath's (Gen/GenMath.v, regenerated from math/default.rs);\n"
+                 "   AutoMath = FastMath under the nightly feature: the two records have the same field, checked here *)")
+        for rec, fld in tr.used_math:
+            L.append("Definition gen_automath_%s_%s_any_variant : %s %s = %s fast_%s := eq_refl."
+                     % (rec[4:], fld[2:], fld, rec, fld, rec[4:]))
+        L.append("")
     for h in tr.helper_order:
         L.append(tr.helpers[h])
     for k in tr.order:
@@ -1203,6 +1447,13 @@ def gen_regs(facts, write_if_changed, GEN, REPO):
     L.append("Ltac unfold_gen :=\n  cbv beta iota zeta delta [\n    da db dc dd de df dg dh\n    %s\n    %s ]." % (
         "\n    ".join(" ".join(names[i:i + 6]) for i in range(0, len(names), 6)),
         "\n    ".join(" ".join(tr.used_intr[i:i + 8]) for i in range(0, len(tr.used_intr), 8))))
+    recs = []
+    for rec, fld in tr.used_math:
+        for x in (fld, rec):
+            if x not in recs:
+                recs.append(x)
+    L.append("(* `AutoMath::m` at a concrete element type: the field of the regenerated record *)")
+    L.append("Ltac unfold_gen_math := %s." % ("cbv beta iota delta [ %s ]" % " ".join(recs) if recs else "idtac"))
     write_if_changed(os.path.join(GEN, "GenRegs.v"), "\n".join(L) + "\n")
 
     # ---- goals: one lemma per entry, one file per (register, element type) ----
@@ -1213,14 +1464,15 @@ def gen_regs(facts, write_if_changed, GEN, REPO):
         G.append("From Coq Require Import ZArith List.")
         G.append("From CF Require Import Model.Tables Model.Prim Model.SimdApi Model.Regs Model.Intrinsics Model.RegTable Gen.GenRegs.")
         G.append("From CF Require Import Proofs.GenRegsSpec Proofs.GenRegsLemmas.")
-        G.append("Import ListNotations.\nLtac unfold_gen_hook ::= unfold_gen.\n")
+        G.append("Import ListNotations.\nLtac unfold_gen_hook ::= unfold_gen.%s\n"
+                 % ("" if goal == "fb_entry_goal" else "\nLtac unfold_math_hook ::= unfold_gen_math."))
         names = []
         for k in ks:
             reg, ty, m = k
             name = tr.done[k][1]
-            shape = SHAPE[m]
+            shape = shape_of(k)
             if ty is None:
-                stmt = "fb_goal %s (%s (@%s))" % (METH[m], FB_SHAPE[shape], name)
+                stmt = "fb_goal %s (%s (@%s))" % (METH[m], shape, name)
             else:
                 wrap = "GF32" if ty == "f32" else "GF64" if ty == "f64" else "GI"
                 stmt = "reg_goal %s %s %s (%s (%s %s))" % (reg, TYS[ty], METH[m], wrap, shape, name)
@@ -1257,6 +1509,7 @@ def gen_regs(facts, write_if_changed, GEN, REPO):
                          for k, r in untranslated],
         "failed": [{"reg": k[0], "ty": k[1] or "T", "method": k[2], "error": e} for k, e in tr.failed],
         "helpers": list(tr.helper_order),
+        "may_panic": ["%s %s %s" % (k[0], k[1] or "T", k[2]) for k in ok if k in tr.partial],
     }
     if tr.failed:
         raise TranslateError("; ".join("<%s as SimdRegister<%s>>::%s: %s" % (k[0], k[1] or "T", k[2], e) for k, e in tr.failed[:6])
